@@ -113,9 +113,9 @@ package resmgr
 //@   modifies unguarded
 //@   ensures unguarded == (old(unguarded) || !sync.locked())
 //@ iface github.com/containers/nri-plugins/pkg/resmgr/policy.Policy.Reconfigure
-//@   modifies unguarded, polN, polCfg, ureq, adj, marks
+//@   modifies unguarded, polN, polCfg, polOK, ureq, adj, marks
 //@   ensures unguarded == (old(unguarded) || !sync.locked())
-//@   ensures polN == old(polN) + 1 && polCfg == arg0
+//@   ensures polN == old(polN) + 1 && polCfg == arg0 && polOK == (result == nil)
 //@   ensures old(pendOK()) ==> pendOK()
 //@ iface github.com/containers/nri-plugins/pkg/resmgr/policy.Policy.Sync
 //@   modifies unguarded, ureq, adj, marks, syncN, syncedAlloc
